@@ -17,6 +17,10 @@ pub mod cweb;
 #[path = "/verif/harness/cweb_e2e.rs"]
 pub mod cweb_e2e;
 
+#[cfg(not(kani))]
+#[path = "/verif/harness/hist_service.rs"]
+pub mod hist_service;
+
 #[path = "/verif/harness/c05.rs"]
 pub mod c05;
 
@@ -49,6 +53,14 @@ mod replay_entry {
             .unwrap_or_default();
         if module == "cweb" {
             super::cweb::replay_file();
+            return;
+        }
+        if module == "c11" {
+            super::hist_service::replay_file();
+            return;
+        }
+        if module == "c03" {
+            crate::raft::filestore::raftlog::verif_priv::hist_log::replay_file();
             return;
         }
         if module == "cweb_e2e" {
